@@ -138,6 +138,18 @@ def build(case):
     add_file("src/filler.py", f"{FILLER} AND MIT", "header")
     for base in (FILLER, "MIT"):
         lic_files.append(f"{base}.txt")
+    # one provider per identifier *as the tool derives it*: 'eupl-1.0' and 'eupl-1.1' without extension both reduce to 'eupl-1'
+    known = P.spdx_data().known
+    seen_keys = set()
+    unique = []
+    for rel in lic_files:
+        name = rel.rsplit("/", 1)[-1]
+        key = name if name in known else (name[: name.rindex(".")] if "." in name[1:] else name)
+        if key in seen_keys:
+            continue
+        seen_keys.add(key)
+        unique.append(rel)
+    lic_files[:] = unique
     for rel in lic_files:
         files[f"LICENSES/{rel}"] = "licence text\n"
     if gkind == "toml" and tables:
